@@ -320,6 +320,18 @@ def render_case(asgi, si, title, use_desc, description, use_code, code, hdr, ai,
     if 'accept' not in _vary_tokens(res):
         return fail(lambda: 'Vary does not list Accept: %r (Vary before the error: %r, error headers %r)' % (
             res.header_all('Vary'), VARY_PRE[vi], headers))
+    # Vary: Accept is ADDED: the members carried by the error itself -- or, when the error brings no Vary of its own (which
+    # would replace it), the ones set on the response before the error -- must still be there
+    keep = headers.get('Vary') if isinstance(headers, dict) else None
+    if keep is None:
+        keep = VARY_PRE[vi]
+    if keep:
+        have = _vary_tokens(res)
+        for tok in keep.split(','):
+            tok = tok.strip().lower()
+            if tok and tok not in have:
+                return fail(lambda: 'Vary member %r lost while the error was rendered: %r (Vary before the error: %r, error headers %r)' % (
+                    tok, res.header_all('Vary'), VARY_PRE[vi], headers))
     acc = ACCEPTS[ai]
     wants_json = acc in (None, '*/*', 'application/json', 'a/b+json', 'application/json;q=0.5, application/xml',
                          'application/xml;q=0.5, application/json;q=0.5')
